@@ -5,9 +5,9 @@ M2 (kernel-certified on a sample of the run's op-1 cases whose Sigma is a short 
 n q (1-q) a perfect square — harness stream (b6)): with mu = norm.Mu and sigma = norm.Sigma as exact
 rationals and Phi the normal CDF of coq/RealSpec/Normal.v,
     Rabs (Phi mu sigma l1        - alpha)    <= 1e-9     l1 = norm.InvCDF(alpha) really is the alpha-quantile
-    Rabs (Phi mu sigma (r0-1/2)  - CDF_hi)   <= 1e-9     the CDF values the band masses are differences of
-    Rabs (Phi mu sigma (la-1/2)  - CDF_lo)   <= 1e-9     (la = left end used, r0 = right end before the trim)
-    Rabs (Phi mu sigma (r0-3/2)  - CDF_hi1)  <= 1e-9
+    Rabs (Phi mu sigma (rw-1/2)  - CDF_hi)   <= 1e-9     the CDF values the band masses are differences of
+    Rabs (Phi mu sigma (lw-1/2)  - CDF_lo)   <= 1e-9     ((lw, rw) = the rounded band after the widening loop,
+    Rabs (Phi mu sigma (rw-3/2)  - CDF_hi1)  <= 1e-9      before the trim)
 The comparator (coq/Check/C11.v) ties mu, sigma^2 to n q, n q (1-q), the band masses to differences of
 these CDF values and Confidence to the band mass; together: the band is the outward rounding of the
 central interval of content c of Normal(nq, nq(1-q)) and Confidence is its normal mass to 2e-9.
@@ -50,9 +50,9 @@ def describe(line, verdict, case_json):
             d["call"] = "QuantileCI(%d, %r, %r)" % (n, q, c)
             o = line[-6:]
             d["observed"] = dict(N=o[0], Quantile=_f(o[1]), Confidence=_f(o[2]), LoOrder=o[3], HiOrder=o[4], Ambiguous=bool(o[5]))
-            d["oracle"] = dict(Mu=_f(line[5]), Sigma=_f(line[6]), l1=_f(line[7]), r1=_f(line[8]), l0=line[9], r0=line[10], band=_f(line[11]), band_biased=_f(line[12]), cdf_l1=_f(line[13]))
+            d["oracle"] = dict(Mu=_f(line[5]), Sigma=_f(line[6]), l1=_f(line[7]), r1=_f(line[8]), l0=line[9], r0=line[10], band=_f(line[11]), band_biased=_f(line[12]), cdf_l1=_f(line[13]), widenings=line[17])
             if code == 2:
-                d["failing_stage"] = {0: "N/Quantile", 1: "c>=1 short cut", 2: "mu / sigma", 3: "r1", 4: "band masses", 5: "rounded band", 6: "CDF(l1) vs alpha", 7: "result", 8: "non-finite oracle value", 9: "order claim"}.get(pos, pos)
+                d["failing_stage"] = {0: "N/Quantile", 1: "c>=1 short cut", 2: "mu / sigma", 3: "r1", 4: "band masses", 5: "rounded band", 6: "CDF(l1) vs alpha", 7: "result", 8: "non-finite oracle value", 9: "order claim", 10: "widening chain", 11: "model self-check"}.get(pos, pos)
                 if pos == 7 and len(verdict) >= 8:
                     d["expected"] = dict(LoOrder=verdict[3], HiOrder=verdict[4], Ambiguous=bool(verdict[5]), Confidence=verdict[6] / verdict[7])
         else:
@@ -72,16 +72,19 @@ def _alpha(c):
 def parse_op1(ints):
     X = m2.bits_to_x
     return dict(n=ints[2], q=X(ints[3]), c=X(ints[4]), mu=X(ints[5]), sigma=X(ints[6]), l1=X(ints[7]), r1=X(ints[8]),
-                l0=ints[9], r0=ints[10], b1=X(ints[11]), b2=X(ints[12]), cdf_l1=X(ints[13]), ch=X(ints[14]), cl=X(ints[15]), ch1=X(ints[16]))
+                l0=ints[9], r0=ints[10], b1=X(ints[11]), b2=X(ints[12]), cdf_l1=X(ints[13]), ch=X(ints[14]), cl=X(ints[15]), ch1=X(ints[16]),
+                K=ints[17] if len(ints) > 17 + 6 else 0)
 
 
 def points(d):
-    """the four (name, abscissa, observed/required value) of one case"""
+    """the four (name, abscissa, observed/required value) of one case; K = number of widenings of the
+    rounded band, (lw, rw) the band taken"""
     la = d["r0"] - 1 if d["r0"] <= d["l0"] else d["l0"]
+    lw, rw = la - d.get("K", 0), d["r0"] + d.get("K", 0)
     return [("alpha", d["l1"], _alpha(d["c"])),
-            ("cdf_hi", Fraction(2 * d["r0"] - 1, 2), d["ch"]),
-            ("cdf_lo", Fraction(2 * la - 1, 2), d["cl"]),
-            ("cdf_hi1", Fraction(2 * d["r0"] - 3, 2), d["ch1"])]
+            ("cdf_hi", Fraction(2 * rw - 1, 2), d["ch"]),
+            ("cdf_lo", Fraction(2 * lw - 1, 2), d["cl"]),
+            ("cdf_hi1", Fraction(2 * rw - 3, 2), d["ch1"])]
 
 
 def collect(lines):
